@@ -13,6 +13,12 @@ solvor.mst.prim of the tree under check:
 Oracles (oracles/mst.py): enumeration of every (n-c)-subset of the edges on the small scope; array-based O(V^2)
 Prim (no heap, no union-find) on the larger seeded graphs, cross-checked against the enumeration on every graph of
 the small scope; cycle-property certificate of the returned tree as a third, self-certifying opinion.
+
+Round 2 (checks/C13_round2.py, oracles/mst_big.py): a size ladder far beyond the small scope (10 .. 20000 nodes, up to
+~245000 edges, sizes around powers of two and round numbers, many equal weights, dense core + sparse fringe, cliques
+joined by bridges, multigraphs, planted optimum) judged by Boruvka + matrix Prim + cycle-property certificate; fine-grained
+numerics (B + k*2^-g with g up to 40, large magnitudes, int/float ties); history mode (one edge list / adjacency dict
+object edited in place between calls, every call twice, last call repeated in a fresh process).
 """
 from __future__ import annotations
 
@@ -23,6 +29,7 @@ from collections import Counter
 from vf.core import Ctx, use_repo
 from vf.pool import pmap
 from oracles import mst as O
+from checks import C13_round2 as R2
 
 LEVEL = "exploration"
 W4 = (-1, 0, 1, 2)
@@ -444,14 +451,31 @@ def rand_disconnected(rng):
     return n, edges
 
 
-FAMILIES = {"small": rand_small, "dense": rand_dense, "unionfind": rand_unionfind, "sparse": rand_sparse,
+def rand_numeric(rng):
+    """small graphs, fine-grained numerics: B + k*2^-g (g up to 40), +-(10^9-k), 2^40+k, int/float ties"""
+    n = rng.randint(2, 12)
+    wf = R2.weight_fn(rng, rng.choice(("dyadic", "dyadic", "bigmag", "mixedtype")), 64)
+    edges = []
+    if rng.random() < 0.8:
+        for i in range(1, n):
+            edges.append((i, rng.randrange(i), wf()))
+    for _ in range(rng.randint(0, 3 * n)):
+        edges.append((rng.randrange(n), rng.randrange(n), wf()))
+    return n, [(min(u, v), max(u, v), w) for u, v, w in edges]
+
+
+FAMILIES = {"numeric": rand_numeric, "small": rand_small, "dense": rand_dense, "unionfind": rand_unionfind, "sparse": rand_sparse,
             "disconnected": rand_disconnected}
 
 
 def work(chunk):
     use_repo()
-    acc = Acc()
     kind = chunk[0]
+    if kind == "L":
+        return R2.work_ladder(chunk)
+    if kind == "H":
+        return R2.work_history(chunk)
+    acc = Acc()
     if kind == "A":
         _, n, m, pre, W, seed = chunk
         rng = random.Random(f"{seed}/A/{n}/{m}/{pre}")
@@ -505,23 +529,38 @@ def run(ctx: Ctx):
         scopes.append(("simple graphs (each pair absent or weighted)", dict(nodes=n, weights=list(W), exhaustive=True)))
     # R: seeded families
     plan = {"small": 6000 if q else 30000, "dense": 320 if q else 2000, "unionfind": 4000 if q else 24000,
-            "sparse": 3000 if q else 12000, "disconnected": 3000 if q else 12000}
-    step = {"small": 100, "dense": 8, "unionfind": 100, "sparse": 100, "disconnected": 100}
+            "sparse": 3000 if q else 12000, "disconnected": 3000 if q else 12000, "numeric": 3000 if q else 20000}
+    step = {"numeric": 100, "small": 100, "dense": 8, "unionfind": 100, "sparse": 100, "disconnected": 100}
     rchunks = []
     for fam, cnt in plan.items():
         for lo in range(0, cnt, step[fam]):
             rchunks.append(("R", fam, seed, lo, min(cnt, lo + step[fam])))
+    # round 2: size ladder (cheap certifying oracles) and history mode (checks/C13_round2.py)
+    ctx.notes["oracle_self_test_graphs"] = R2.B.self_test()
+    lspecs = R2.ladder_specs(q, seed)
+    hspecs = R2.history_specs(q, seed)
+    cost = lambda sp: -(sp["size"] ** 2 if sp["family"] in ("core_fringe", "blocks") else  # noqa: E731
+                        sp["x"] if sp["family"] == "multigraph" else 3 * sp["size"])
+    lspecs.sort(key=cost)
+    nbig = sum(1 for sp in lspecs if -cost(sp) >= 8000)
+    lchunks = [("L", [sp]) for sp in lspecs[:nbig]] + [("L", lspecs[i:i + 6]) for i in range(nbig, len(lspecs), 6)]
+    grow = [h for h in hspecs if h["size"] != "small"]
+    small = [h for h in hspecs if h["size"] == "small"]
+    hchunks = [("H", [h]) for h in grow] + [("H", small[i:i + 50]) for i in range(0, len(small), 50)]
     # heavy chunks first
-    items = [c for c in rchunks if c[1] == "dense"] + chunks + [c for c in rchunks if c[1] != "dense"]
+    items = (lchunks[:nbig] + hchunks[:len(grow)] + [c for c in rchunks if c[1] == "dense"] + lchunks[nbig:] + chunks
+             + [c for c in rchunks if c[1] != "dense"] + hchunks[len(grow):])
     results = pmap(work, items, chunksize=1)
     evals = graphs = nontriv = heavy = uf7 = 0
+    r2 = Counter()
+    lasts = []
     keys = set()
     per_obl = Counter()
     viol = []
     samples = []
     sampled = set()
     for it, r in zip(items, results):
-        kind = (it[0], it[1])
+        kind = (it[0], it[1] if it[0] not in ("L", "H") else None)
         if kind not in sampled and r["samples"] and len(str(r["samples"][0])) < 1200:
             sampled.add(kind)
             samples.append(r["samples"][0])
@@ -533,14 +572,61 @@ def run(ctx: Ctx):
         keys |= r["keys"]
         per_obl.update(r["per_obl"])
         viol += r["viol"]
+        for k, v in r.get("r2", {}).items():
+            if k.startswith("ladder_max"):
+                r2[k] = max(r2[k], v)
+            else:
+                r2[k] += v
+        lasts += r.get("lasts", [])
+    # history mode: the last call of a sample of sessions, repeated in a fresh interpreter on newly built arguments
+    try:
+        fresh = R2.fresh_process([l for _h, l in lasts])
+        for (hs, last), ans in zip(lasts, fresh):
+            r2["history_fresh_process_comparisons"] += 1
+            if ans != last["answer"]:
+                name = f"C13/{hs['api']}/ensures:same-status-and-weight-in-a-fresh-process"
+                per_obl[name] += 1
+                viol.append((name, {"fn": "history", "history": hs, "upto": None, "fresh": True},
+                             f"[history, last call] in this process (after the earlier calls and in-place edits) "
+                             f"{last['answer']}, in a fresh process on an equal input {ans}"))
+    except Exception as e:  # noqa: BLE001
+        ctx.defects.append(f"C13 history: fresh-process comparison failed: {e}")
     for name, sc in scopes:
         ctx.scope(name, **sc)
+    fam_count = Counter(sp["family"] for sp in lspecs)
+    ctx.scope("round 2 size ladder (verdict by Boruvka + matrix Prim <= 1100 nodes + planted optimum + cycle-property "
+              "certificate of the returned forest; oracles/mst_big.py)", graphs=dict(fam_count),
+              max_nodes=r2["ladder_max_nodes"], max_edges=r2["ladder_max_edges"],
+              planted_optimum_known=r2["ladder_planted_optimum"], matrix_prim_crosschecked=r2["ladder_matrix_prim_crosschecked"],
+              description={"core_fringe": "complete / 0.8-dense core on 10,11,12,33,65,91,100,129,140,260,520(+180,300,700 thorough) "
+                                          "nodes + 1..6 low-degree fringe nodes appended last",
+                           "blocks": "2..8 cliques of 10..130 nodes joined by single bridges, or left disconnected",
+                           "multigraph": "4..130 nodes with 520..65537 (thorough 131073) parallel edges and loops, last node(s) on late edges",
+                           "sparse": "260..4100 (thorough 20000) nodes, tree (random/path/two stars/binary) + n/2..4n extras, "
+                                     "half with planted optimum",
+                           "shape": "path+chords, cycle, star, wheel, grid, complete bipartite, caterpillar, ladder; 33..1030 "
+                                    "(thorough 5000) nodes",
+                           "forest": "12..1030 (thorough 5000) nodes in many components (trees, cycles, cliques, isolated)",
+                           "weights": "all equal, {1,2}, {1,2,3}, {0,1}, 1..10, 1..100, negative, distinct, mixed int/float "
+                                      "ties, +-(10^9-k) / 2^40+k, B + k*2^-g with g up to 40",
+                           "calls": "kruskal(backend=python) on the edge list as generated / shuffled+reoriented / reversed, "
+                                    "with and without allow_forest; prim (<= 70000 edges) from the first key and two "
+                                    "other starts, label scheme and adjacency order drawn per graph"})
+    ctx.scope("round 2 history mode: one edge list / adjacency dict object, in-place edits between calls, every call made "
+              "twice and judged against the oracle for the input as it is then", sessions=r2["history_sessions"],
+              calls=r2["history_calls"], fresh_process_comparisons=r2["history_fresh_process_comparisons"],
+              description={"small": "2..9(+) nodes: append / overwrite weight / delete / flip / new node / reverse, shuffle, "
+                                    "sort in place; 3..6 edit rounds",
+                           "grow": "complete graph on 40..120 nodes growing by late pendant nodes and batches of 50..3000 "
+                                   "edges across 1024 / 4096 / 8192 edges"})
     ctx.scope("seeded random families", counts=plan,
               description={"small": "1..9 nodes, ties/negatives/floats/big weights, loops, duplicates",
                            "dense": "15..30 nodes, density 0.6..1 plus duplicates and loops (prim heap > 4|V|)",
                            "unionfind": "7..24 nodes, level-wise rank-balanced merges through non-representative members",
                            "sparse": "7..18 nodes random sparse multigraphs",
-                           "disconnected": "2..14 nodes, 2..4 components, isolated nodes"})
+                           "disconnected": "2..14 nodes, 2..4 components, isolated nodes",
+                           "numeric": "2..12 nodes, weights B + k*2^-g (g in 20..40, B up to 2^24 as far as exact float "
+                                      "sums allow), +-(10^9-k), 2^40+k, int/float ties"})
     size = lambda v: len(str(v[1]))  # noqa: E731
     viol.sort(key=lambda v: (v[0], size(v)))
     kept = Counter()
@@ -555,6 +641,7 @@ def run(ctx: Ctx):
     ctx.notes["violations_by_obligation"] = dict(per_obl)
     ctx.notes["prim_runs_dense_ge15_nodes"] = heavy
     ctx.notes["kruskal_python_runs_ge7_nodes"] = uf7
+    ctx.notes["round2"] = dict(r2)
     ctx.rule = ("cases = graphs. Enumerated scopes: every multiset of <= max_edges weighted edges (self loops, parallel "
                 "edges) on n nodes, and every simple graph with each pair absent or weighted; each enumerated once, so "
                 "distinct by construction. Random families: seeded generators (seed/family/index); distinct by hash of "
@@ -563,7 +650,9 @@ def run(ctx: Ctx):
                 "must be rejected). evaluations = checked solver calls: per graph kruskal(backend=python) with and "
                 "without allow_forest on a shuffled, randomly oriented edge list, and prim from start=None and from "
                 "every node, with a label scheme (int, negative int, str, tuple, frozenset, mixed unorderable) and "
-                "shuffled adjacency / key order drawn per graph.")
+                "shuffled adjacency / key order drawn per graph. Round 2: one case per ladder spec (family, size, weight "
+                "palette, index; graph regenerated from the spec) counted when non-trivial, one per history session "
+                "(script regenerated from the spec); distinct by construction; every call of a session is an evaluation.")
     ctx.assumptions += [
         "weights are ints or floats whose partial sums are exactly representable (objective compared exactly; float rounding of sums not modelled)",
         "prim's graph argument is a symmetric adjacency dict that lists every node as a key (an undirected graph)",
@@ -572,12 +661,16 @@ def run(ctx: Ctx):
     ]
     ctx.trusted += ["oracles/mst.py: subset enumeration (definition), array Prim cross-checked against it on every "
                     "enumerated graph, cycle-property certificate on every accepted tree",
+                    "oracles/mst_big.py: Boruvka, matrix Prim, binary-lifting cycle-property certificate; self-tested "
+                    "against each other and the enumeration at every run, and required to agree on every ladder graph",
                     "CPython itertools/random/fractions"]
 
 
 def replay(rec) -> int:
     use_repo()
     case = rec["case"]
+    if case["fn"] == "history" or "ladder" in case or "ladder" in case.get("kruskal", {}):
+        return R2.replay(rec)
     cases = [case["kruskal"], case["prim"]] if case["fn"] == "both" else [case]
     bad = 0
     objs = []
